@@ -1,0 +1,78 @@
+//! `connection/spaces.rs::PendingAcks::{insert_one, subtract_below}` over `range_set::ArrayRangeSet`.
+//!
+//! Requests (first token `pendingacks` already removed); `now` is nanoseconds after a per-state base Instant:
+//!   new | insert <packet> <now> | sub <max>
+//!   rs_insert <start> <end> | rs_remove <start> <end> | rs_pop      ArrayRangeSet::{insert, remove, pop_min} directly
+//! State suffix: `[start-end,…] largest=<pn>@<ns>|none`
+use super::{num, Comp, BAD};
+use crate::connection::spaces::PendingAcks;
+use crate::range_set::ArrayRangeSet;
+use crate::{Duration, Instant};
+
+pub(super) struct PendingAcksC {
+    base: Instant,
+    acks: PendingAcks,
+    /// a bare set for the raw `rs_*` requests
+    set: ArrayRangeSet,
+}
+
+fn fmt(set: &ArrayRangeSet) -> String {
+    let v: Vec<String> = set.iter().map(|r| format!("{}-{}", r.start, r.end)).collect();
+    format!("[{}]", v.join(","))
+}
+
+impl PendingAcksC {
+    pub(super) fn new() -> Self {
+        Self {
+            base: Instant::now(),
+            acks: PendingAcks::verif_new(),
+            set: ArrayRangeSet::new(),
+        }
+    }
+    fn state(&self) -> String {
+        let l = match self.acks.verif_largest_packet() {
+            None => "none".to_string(),
+            Some((pn, t)) => format!("{pn}@{}", t.duration_since(self.base).as_nanos()),
+        };
+        format!("{} largest={l}", fmt(self.acks.ranges()))
+    }
+}
+
+impl Comp for PendingAcksC {
+    fn exec(&mut self, w: &[&str]) -> String {
+        match w {
+            ["new"] => {
+                *self = Self::new();
+                format!("ok {}", self.state())
+            }
+            ["insert", packet, now] => {
+                let (Some(packet), Some(now)) = (num(packet), num(now)) else { return BAD.into() };
+                if now >= 1 << 62 {
+                    return BAD.into();
+                }
+                self.acks.insert_one(packet, self.base + Duration::from_nanos(now));
+                format!("ok {}", self.state())
+            }
+            ["sub", max] => {
+                let Some(max) = num(max) else { return BAD.into() };
+                self.acks.subtract_below(max);
+                format!("ok {}", self.state())
+            }
+            ["rs_insert", s, e] => {
+                let (Some(s), Some(e)) = (num(s), num(e)) else { return BAD.into() };
+                let b = self.set.insert(s..e);
+                format!("{b} {}", fmt(&self.set))
+            }
+            ["rs_remove", s, e] => {
+                let (Some(s), Some(e)) = (num(s), num(e)) else { return BAD.into() };
+                let b = self.set.remove(s..e);
+                format!("{b} {}", fmt(&self.set))
+            }
+            ["rs_pop"] => match self.set.pop_min() {
+                None => format!("none {}", fmt(&self.set)),
+                Some(r) => format!("ok {}-{} {}", r.start, r.end, fmt(&self.set)),
+            },
+            _ => BAD.into(),
+        }
+    }
+}
